@@ -35,3 +35,39 @@ fn c07_unspent_dump_matches_reference() {
     }
     finish(suite, cases);
 }
+
+/// C07 (bounded: fan-out transactions with 252 / 253 / 254 / 300 outputs, a 253-byte script, 253 inputs): counts and
+/// lengths on both sides of the CompactSize width boundary -- the rows carry the real txid (so later spends of it are
+/// honoured) and every output index
+#[test]
+fn c07_compactsize_boundary_fanouts() {
+    let suite = "c07_compactsize_boundary_fanouts";
+    let mut cases = 0;
+    for n in [252usize, 253, 254, 300] {
+        cases += 1;
+        let fan = TxSpec::new(vec![TxIn::new([0x33; 32], 5, vec![0x51])], (0..n).map(|i| TxOut::new(10 + i as u64, p2pkh_script(&[(i % 251) as u8; 20]))).collect());
+        let fid = fan.txid();
+        // a second block spends the first and the last output of the fan-out (by its real txid) and pays through a long script
+        let mut long = vec![0x6a, 0x4c, 0xfa]; long.extend(vec![0x41u8; 250]);            // 253-byte script (no address)
+        let spend = TxSpec::new(vec![TxIn::new(fid, 0, vec![]), TxIn::new(fid, (n - 1) as u32, vec![])], vec![TxOut::new(7, p2pkh_script(&[0xee; 20])), TxOut::new(0, long)]);
+        // a third block gathers 253 outputs of the fan-out... only when it has that many
+        let gather: Vec<TxSpec> = if n >= 254 { vec![TxSpec::new((1..254).map(|i| TxIn::new(fid, i as u32, vec![])).collect(), vec![TxOut::new(9, p2pkh_script(&[0xdd; 20]))])] } else { vec![] };
+        let mut blocks = vec![vec![fan], vec![spend], gather].into_iter();
+        let mut chain = make_chain(4, &mut |h| if h == 0 { vec![] } else { blocks.next().unwrap() });
+        relink(&mut chain);
+        let d = simple_dir(&chain); d.write();
+        let out = tempfile::tempdir().unwrap();
+        let m = UnspentCsvDump::build_subcommand().get_matches_from(vec!["unspentcsvdump", out.path().to_str().unwrap()]);
+        let cb = UnspentCsvDump::new(&m).unwrap();
+        let inp = format!("fan-out of {} outputs, first and last spent by txid{}", n, if n >= 254 { ", 253 more gathered by one tx" } else { "" });
+        if let Err(x) = drive_with(d.path(), "bitcoin", 0, None, false, Box::new(cb)) { fail(suite, "C07:run_completes", &inp, &x, "Ok"); continue; }
+        let lines = csv_lines(&out.path().join("unspent-0-3.csv"));
+        let mut got: Vec<String> = lines.iter().skip(1).cloned().collect(); got.sort();
+        let mut want: Vec<String> = ref_utxo(&chain, 0, 3).iter().map(|((t, i), (h, v, a))| format!("{};{};{};{};{}", t, i, h, v, a)).collect(); want.sort();
+        let extra: Vec<&String> = got.iter().filter(|g| !want.contains(g)).collect();
+        let missing: Vec<&String> = want.iter().filter(|w| !got.contains(w)).collect();
+        check(extra.is_empty(), suite, "C07:nothing_else_is_listed", &inp, &format!("{} extra rows e.g. {:?}", extra.len(), extra.first()), "no extra rows");
+        check(missing.is_empty(), suite, "C07:every_unspent_address_bearing_output_is_listed", &inp, &format!("{} missing rows e.g. {:?}", missing.len(), missing.first()), "no missing rows");
+    }
+    finish(suite, cases);
+}
